@@ -48,7 +48,69 @@ func genConf(r *rand.Rand) (kind int, window, max uint64) {
 	return
 }
 
+// genFBI: a history on the window bitmap itself (kind 2): op [1 k] Lsh, [2 i] SetBit, [3 i] Bit
+func genFBI(r *rand.Rand) *common.History {
+	var n uint64
+	if r.IntN(3) == 0 {
+		n = r.Uint64N(401)
+	} else {
+		n = pick(r, windows)
+	}
+	h := &common.History{Conf: []string{"2", common.I(n), "0"}}
+	for i, m := 0, 10+r.IntN(60); i < m; i++ {
+		switch c := r.IntN(10); {
+		case c < 4:
+			k := pick(r, []uint64{0, 1, 2, 3, 31, 32, 33, 63, 64, 65, 127, 128, 129, 191, 192, 193, n, n + 1, 7, 100, 1 << 40})
+			if r.IntN(3) == 0 {
+				k = r.Uint64N(n + 70)
+			}
+			if n > 0 && r.IntN(6) == 0 {
+				k = n - 1
+			}
+			h.Ops = append(h.Ops, []string{"1", common.I(k)})
+		case c < 7:
+			h.Ops = append(h.Ops, []string{"2", common.I(r.Uint64N(n + 3))})
+		default:
+			i := r.Uint64N(n + 3)
+			if r.IntN(3) == 0 {
+				i = pick(r, []uint64{0, 63, 64, 127, 128, n - 1, n, n + 1})
+			}
+			h.Ops = append(h.Ops, []string{"3", common.I(i)})
+		}
+	}
+	return h
+}
+
+func runFBI(h *common.History) {
+	f := replaydetector.VerifNewFBI(uint(common.AtoU64(h.Conf[1])))
+	h.Obs = nil
+	words := func() []string {
+		var out []string
+		for _, w := range f.Words() {
+			out = append(out, common.I(w))
+		}
+		return out
+	}
+	for _, op := range h.Ops {
+		x := uint(common.AtoU64(op[1]))
+		switch op[0] {
+		case "1":
+			f.Lsh(x)
+			h.Obs = append(h.Obs, words())
+		case "2":
+			f.SetBit(x)
+			h.Obs = append(h.Obs, words())
+		default:
+			h.Obs = append(h.Obs, []string{common.I(f.Bit(x))})
+		}
+	}
+	h.Tags = append(h.Tags, "bitmap_words")
+}
+
 func genHistory(r *rand.Rand) *common.History {
+	if r.IntN(6) == 0 {
+		return genFBI(r)
+	}
 	kind, window, max := genConf(r)
 	h := &common.History{Conf: []string{common.I(kind), common.I(window), common.I(max)}}
 	nops := 20 + r.IntN(120)
@@ -128,6 +190,10 @@ func genHistory(r *rand.Rand) *common.History {
 }
 
 func run(h *common.History) {
+	if h.Conf[0] == "2" {
+		runFBI(h)
+		return
+	}
 	kind := common.AtoI(h.Conf[0])
 	window := common.AtoU64(h.Conf[1])
 	max := common.AtoU64(h.Conf[2])
